@@ -212,6 +212,13 @@ def reset_writer_state():
             cur.update(v)
 
 
+def pristine(name):
+    """import-time value of a module-level keyword set of unified_planning.io.pddl_writer"""
+    if not _PRISTINE:
+        reset_writer_state()
+    return _PRISTINE.get(name, frozenset())
+
+
 class Scratch:
     """temp dir that is always removed"""
 
